@@ -171,7 +171,7 @@ impl<'a> Printer<'a> {
         }
     }
 
-    fn call(&self, callee_text: String, callee_is_name: bool, args: &[Expr], site: u32, lvl: usize, stmt_pos: bool) -> String {
+    fn call_form(&self, callee_is_name: bool, args: &[Expr], site: u32) -> CallForm {
         let mut form = match self.sug(site as u64, 4) {
             0 => CallForm::Paren,
             1 => CallForm::Prime,
@@ -191,6 +191,11 @@ impl<'a> Printer<'a> {
         if multiline {
             form = CallForm::Paren;
         }
+        form
+    }
+
+    fn call(&self, callee_text: String, callee_is_name: bool, args: &[Expr], site: u32, lvl: usize, stmt_pos: bool) -> String {
+        let form = self.call_form(callee_is_name, args, site);
         let key = site as u64;
         match form {
             CallForm::Paren => format!("{}({})", callee_text, self.args(args, lvl, key)),
@@ -254,10 +259,19 @@ impl<'a> Printer<'a> {
                 self.maybe_redundant_parens(s, hash64(format!("{:?}", op).as_bytes()) ^ lvl as u64)
             }
             Expr::AssertEq(a, b) => format!("{} <=> {}", self.operand(a, lvl), self.operand(b, lvl)),
-            Expr::Un(op, a) => match op {
-                UnOp::Neg => format!("-{}", self.operand(a, lvl)),
-                UnOp::Not => format!("not {}", self.operand(a, lvl)),
-            },
+            Expr::Un(op, a) => {
+                // `a -> f(b)` means `f(a, b)` also directly behind a unary operator: `-a -> f(b)` is `-f(a, b)`
+                let inner = match &**a {
+                    Expr::Call { callee, args, site } if matches!(&**callee, Expr::Var(_)) && self.call_form(true, args, *site) == CallForm::Arrow && Self::is_atomic(&args[0]) && !matches!(args[0], Expr::Int(i) if i < 0) => {
+                        self.expr_pos(a, lvl, true)
+                    }
+                    _ => self.operand(a, lvl),
+                };
+                match op {
+                    UnOp::Neg => format!("-{}", inner),
+                    UnOp::Not => format!("not {}", inner),
+                }
+            }
             Expr::Call { callee, args, site } => {
                 let (ct, is_name) = match &**callee {
                     Expr::Var(b) => (self.var(*b), true),
